@@ -448,6 +448,14 @@ func genSQL(rng *rand.Rand) Case {
 		fields = append(fields, f)
 		c.Stat = append(c.Stat, "sql-"+kind+"-"+f.input[0])
 	}
+	having := rng.Intn(3) == 0
+	if having {
+		// HAVING hm > 0 with hm = max(h), h in {0,1}: whole batches are rejected now and then, and the batch after a
+		// rejected one must not see its rows
+		fields = append(fields, c03Field{alias: "hm", kind: "max", p: 0.95, nth: 1, input: []string{"col", hx("h")}})
+		c.Cfg = append(c.Cfg, []string{"having", hx("hm")})
+		c.Stat = append(c.Stat, "sql-having")
+	}
 	fields = append(fields, c03Field{alias: "zc", kind: "count", p: 0.95, nth: 1, input: []string{"col", hx("zsent")}})
 	var sel []string
 	if grouped {
@@ -460,6 +468,9 @@ func genSQL(rng *rand.Rand) Case {
 	gb := "CountingWindow(" + strconv.Itoa(n) + ")"
 	if grouped {
 		gb = "g, " + gb
+	}
+	if having {
+		gb += " HAVING hm > 0"
 	}
 	c.Cfg = append(c.Cfg, []string{"sql", hx("SELECT " + strings.Join(sel, ", ") + " FROM stream GROUP BY " + gb)})
 	arith := func() string { // columns under arithmetic: numbers, NULL (missing through genRow)
@@ -497,6 +508,9 @@ func genSQL(rng *rand.Rand) Case {
 		row := genRow(rng, cols, gen, 12)
 		if grouped && len(row) > 1 && row[1] != hx("g") { // keep the group column present
 			row = append([]string{"row", hx("g"), gen["g"]()}, row[1:]...)
+		}
+		if having {
+			row = append(row, hx("h"), []string{"i:0", "i:0", "i:0", "i:1"}[rng.Intn(4)])
 		}
 		c.Ops = append(c.Ops, row)
 	}
@@ -807,6 +821,9 @@ func execSQL(c Case) [][][]string {
 	}
 	for i := 0; i < pad+n; i++ {
 		sr := map[string]interface{}{"zsent": 1}
+		if len(cfgGet(c, "having")) > 0 {
+			sr["h"] = 1
+		}
 		if len(gcols) > 0 {
 			sr[gcols[0]] = "~end"
 		}
